@@ -490,13 +490,14 @@ let lifecycle_case (toks : string list) : string =
       else (match b with
         | "c" -> [ M.EAccept f; M.EEof f ]
         | "f" | "k" | "h" | "z" | "s" | "S" | "t" -> [ M.EAccept f; M.EData f; M.EEof f ]
+        | "A" -> [ M.EAccept f; M.EData f; M.EWriteFail f; M.EErr0 f ]
         | "d" | "b" -> [ M.EAccept f; M.EData f; M.EEof f ]
         | "r" -> [ M.EAccept f; M.EData f; M.EErr0 f ]
         | "i" -> [ M.EAccept f; M.EIdle f ]
         | "j" | "m" -> [ M.EAccept f; M.EData f; M.EIdle f ]
         | "w" -> [ M.EAccept f; M.EData f; M.EWriteFail f; M.EErr0 f ]   (* the 408 never gets written: no idle close *)
         | _ -> []) in
-    let request_seen b = List.mem b [ "f"; "k"; "h"; "r"; "m"; "w"; "z"; "s"; "S"; "t" ] in
+    let request_seen b = List.mem b [ "f"; "k"; "h"; "r"; "m"; "w"; "z"; "s"; "S"; "t"; "A" ] in
     (* interleave the connections of one round event by event *)
     let rec interleave (ls : M.ev0 list list) : M.ev0 list =
       let heads = List.filter_map (function [] -> None | x :: _ -> Some x) ls in
@@ -509,7 +510,7 @@ let lifecycle_case (toks : string list) : string =
         @ interleave (List.mapi (fun i b -> conn_events (i + 10) b) probes))) in
     let st = M.lrun evs in
     (* the write queues: behaviours that leave an answer unsent when the connection ends *)
-    let unsent b = if mode = "T" then b = "p" else List.mem b [ "z"; "w"; "s" ] in
+    let unsent b = if mode = "T" then b = "p" else List.mem b [ "z"; "w"; "s"; "A" ] in
     let answered b = if mode = "T" then List.mem b [ "d"; "f"; "h"; "r" ] else List.mem b [ "f"; "k"; "h"; "r"; "m"; "S"; "t"; "i"; "j" ] in
     let qconn fd b =
       let f = nat_of_int fd in
@@ -517,6 +518,16 @@ let lifecycle_case (toks : string list) : string =
     let qevs = List.concat (List.init rounds (fun _ ->
         List.concat (List.mapi (fun i b -> qconn (i + 10) b) bs) @ List.concat (List.mapi (fun i b -> qconn (i + 10) b) probes))) in
     let stale = int_of_nat (M.q_stale (M.qrun true qevs)) in
+    (* files queued by Http::serveFile: header then file; 's' abandons the download, 'S' completes it *)
+    let fconn fd b =
+      let f = nat_of_int fd in
+      if mode = "T" then [] else match b with
+        | "s" | "A" -> [ M.FQueue (f, false); M.FQueue (f, true); M.FSent f; M.FDrop f ]
+        | "S" -> [ M.FQueue (f, false); M.FQueue (f, true); M.FSent f; M.FSent f; M.FDrop f ]
+        | _ -> [ M.FDrop f ] in
+    let fevs = List.concat (List.init rounds (fun _ -> List.concat (List.mapi (fun i b -> fconn (i + 10) b) bs))) in
+    let fst_ = M.frun true fevs in
+    let files_open = List.fold_left (fun a i -> a + int_of_nat (fst_.M.f_files (nat_of_int (i + 10)))) 0 (List.init width (fun i -> i)) in
     (* split the log per descriptor into connection records at each release *)
     let recs = ref [] and after = ref 0 in
     List.iteri (fun i b ->
@@ -544,7 +555,7 @@ let lifecycle_case (toks : string list) : string =
     let shown = List.sort compare shown in
     ignore width;
     Printf.sprintf "%s conns=%d logs=%s after_disc=%d fd_delta=%d stale=%d" mode (List.length shown)
-      (if shown = [] then "-" else String.concat "," shown) !after (List.length st.M.peers) stale
+      (if shown = [] then "-" else String.concat "," shown) !after (List.length st.M.peers + files_open) stale
   | _ -> "BADCASE"
 
 (* ---------------- client request/response matching (C15) ---------------- *)
@@ -669,6 +680,16 @@ let dispatch_case (toks : string list) : string =
    model only if every phase (10 ms grid, both tie orders) and every lateness (0/30/60 ms) gives the same outcome. *)
 let timeout_case (toks : string list) : string =
   match toks with
+  | [ "Z"; maxsz; segs ] ->
+    (* HandlerModel.serve: Handler::onInput read by read on a live connection *)
+    let reads = List.map bytes_of_hex (List.filter (fun x -> x <> "") (String.split_on_char ',' segs)) in
+    let acts = M.serve M.typed_other_inst M.set_cookie_inst (nat_of_int (int_of_string maxsz)) M.pstate_init reads in
+    let codes = List.filter_map (function M.ARespond c -> Some (decimal_of_n c) | M.AHandler _ -> Some "200" | M.AWait -> None) acts in
+    let seen = List.filter_map (function
+        | M.AHandler m -> Some (str_of_bytes m.M.m_resource ^ ":" ^ string_of_int (List.length m.M.m_body))
+        | _ -> None) acts in
+    Printf.sprintf "Z codes=%s handler=%d seen=%s" (if codes = [] then "-" else String.concat "," codes) (List.length seen)
+      (if seen = [] then "-" else String.concat "," seen)
   | [ "W"; hT; bT; script ] ->
     let hT = int_of_string hT and bT = int_of_string bT in
     let steps = List.filter (fun x -> x <> "") (String.split_on_char ',' script) in
